@@ -54,7 +54,8 @@ impl FileSystem {
     }
 
     pub(crate) fn resolve_abs_path(&self, path: impl AsRef<Path>) -> Result<PathBuf> {
-        Ok(path.as_ref().absolutize_virtually(&self.root)?.into_owned())
+        // join first: normalising a relative path that collapses to nothing (`bucket/..`) panics in `path-dedot`
+        Ok(self.root.join(path).absolutize_virtually(&self.root)?.into_owned())
     }
 
     pub(crate) fn resolve_upload_part_path(&self, upload_id: Uuid, part_number: PartNumber) -> Result<PathBuf> {
